@@ -2,6 +2,7 @@
 C16 — addresses are pure digests: identical data is stored once, algorithms coexist.
 -/
 import Cacache.Lemmas.Commit
+import Cacache.Lemmas.CacheRefine
 
 namespace Cacache.C16
 open Prog
@@ -71,5 +72,20 @@ theorem verified_with_own_algorithm (a : Algo) (d : Bytes) (b : Bytes) (x : Algo
   simp at h
   obtain ⟨h1, h2⟩ := h
   exact ⟨h2.symm, h1.symm ▸ rfl⟩
+
+/-! ### the content store refines a map from addresses to bytes -/
+
+open CacheRefine in
+/-- **Any sequence of by-address operations** (`write_hash` / streamed by-address writers of any
+flavour, options and chunking; `read_hash`; `exists`; `remove_hash`) run from a healthy store
+answers like the abstract map `(algorithm, hex digest) ↦ bytes`: a put maps the address of the
+digest of the bytes — which depends on (algorithm, bytes) only — to the bytes and touches no other
+address; total correctness included. -/
+theorem store_refines_map (cfg : Cfg) (cache : Path) (ops : List (Env × SOp)) (fs : FS)
+    (h : HealthyStore cfg cache fs) (hl : HexLen cfg) :
+    (sRunOps cfg cache ops fs).1 = (sSpecRun cfg ops (absStore cache fs)).1 ∧
+    absStore cache (sRunOps cfg cache ops fs).2 = (sSpecRun cfg ops (absStore cache fs)).2 ∧
+    HealthyStore cfg cache (sRunOps cfg cache ops fs).2 :=
+  CacheRefine.store_refines_map cfg cache ops fs h hl
 
 end Cacache.C16
